@@ -5,6 +5,7 @@ import (
 	"encoding/json"
 	"fmt"
 	"os"
+	"sort"
 	"strings"
 
 	"github.com/prometheus/prometheus/promql"
@@ -52,6 +53,56 @@ func knownClass(cls string) bool {
 type rewriter struct {
 	class string
 	apply func(e expr) (expr, bool) // false: the defect does not apply to this expression
+	// applyQ (optional): a model that depends on the kind of query
+	applyQ func(q *query, e expr) (expr, bool)
+}
+
+func (rw *rewriter) run(q *query, e expr) (expr, bool) {
+	if rw.applyQ != nil {
+		return rw.applyQ(q, e)
+	}
+	return rw.apply(e)
+}
+
+// mapNodes rebuilds the expression bottom-up, replacing every node by f(node) when f returns non-nil.
+func mapNodes(e expr, f func(expr) expr) expr {
+	var rec func(e expr) expr
+	rec = func(e expr) expr {
+		var out expr
+		switch n := e.(type) {
+		case *numLit, *selector, *rangeFn:
+			out = cloneExpr(e)
+		case *aggExpr:
+			c := *n
+			c.e = rec(n.e)
+			out = &c
+		case *binExpr:
+			c := *n
+			c.l, c.r = rec(n.l), rec(n.r)
+			out = &c
+		case *setExpr:
+			c := *n
+			c.l, c.r = rec(n.l), rec(n.r)
+			out = &c
+		case *kaggExpr:
+			c := *n
+			c.e = rec(n.e)
+			out = &c
+		case *tsExpr:
+			out = &tsExpr{e: rec(n.e)}
+		case *subqExpr:
+			c := *n
+			c.e = rec(n.e)
+			out = &c
+		default:
+			panic("mapNodes")
+		}
+		if r := f(out); r != nil {
+			return r
+		}
+		return out
+	}
+	return rec(e)
 }
 
 func cloneExpr(e expr) expr {
@@ -73,7 +124,24 @@ func cloneExpr(e expr) expr {
 	case *binExpr:
 		c := *n
 		c.labels = append([]string{}, n.labels...)
+		c.include = append([]string{}, n.include...)
 		c.l, c.r = cloneExpr(n.l), cloneExpr(n.r)
+		return &c
+	case *setExpr:
+		c := *n
+		c.labels = append([]string{}, n.labels...)
+		c.l, c.r = cloneExpr(n.l), cloneExpr(n.r)
+		return &c
+	case *kaggExpr:
+		c := *n
+		c.labels = append([]string{}, n.labels...)
+		c.e = cloneExpr(n.e)
+		return &c
+	case *tsExpr:
+		return &tsExpr{e: cloneExpr(n.e)}
+	case *subqExpr:
+		c := *n
+		c.e = cloneExpr(n.e)
 		return &c
 	}
 	panic("cloneExpr")
@@ -112,14 +180,14 @@ func classify(srv *ogServer, ps *plannedSet, q *query, kind string, got, want *r
 	// (class = the first model of the set)
 	var applicable []rewriter
 	for _, rw := range rewriters {
-		if _, ok := rw.apply(q.e); ok {
+		if _, ok := rw.run(q, q.e); ok {
 			applicable = append(applicable, rw)
 		}
 	}
 	explains := func(rws []rewriter) bool {
 		e2 := q.e
 		for _, rw := range rws {
-			if e3, ok := rw.apply(e2); ok {
+			if e3, ok := rw.run(q, e2); ok {
 				e2 = e3
 			}
 		}
@@ -167,7 +235,7 @@ func dupSignatureOverRange(ps *plannedSet, q *query, models []rewriter) bool {
 	check := func(e expr) {
 		e.walk(func(x expr) {
 			b, ok := x.(*binExpr)
-			if !ok || found || isScalar(b.l) || isScalar(b.r) {
+			if !ok || found || isScalar(b.l) || isScalar(b.r) || b.group != "" {
 				return
 			}
 			for _, side := range []expr{b.l, b.r} {
@@ -212,7 +280,7 @@ func dupSignatureOverRange(ps *plannedSet, q *query, models []rewriter) bool {
 	if !found && len(models) > 0 {
 		e2 := q.e
 		for _, rw := range models {
-			if e3, ok := rw.apply(e2); ok {
+			if e3, ok := rw.run(q, e2); ok {
 				e2 = e3
 			}
 		}
@@ -224,6 +292,35 @@ func dupSignatureOverRange(ps *plannedSet, q *query, models []rewriter) bool {
 // The defect models of the findings that could not be repaired in /repo (golden tests of
 // promql2influxql assert the generated InfluxQL text).
 var rewriters = []rewriter{
+	{
+		// timestamp(<selector>): the transpiler rewrites timestamp_prom to the time of the output row
+		// (materialize_transform): in a range query that is the step, in an instant query the sample
+		// time shifted by the offset
+		class: "timestamp-of-row-not-sample",
+		applyQ: func(q *query, e expr) (expr, bool) {
+			changed := false
+			out := mapNodes(e, func(x expr) expr {
+				t, ok := x.(*tsExpr)
+				if !ok {
+					return nil
+				}
+				sel, ok := t.e.(*selector)
+				if !ok {
+					return nil
+				}
+				if q.step > 0 {
+					changed = true
+					return &tsExpr{e: &binExpr{op: "+", match: "none", l: sel, r: &numLit{v: 0}}}
+				}
+				if sel.offset != 0 {
+					changed = true
+					return &binExpr{op: "+", match: "none", l: t, r: &numLit{v: float64(sel.offset) / 1000}}
+				}
+				return nil
+			})
+			return out, changed
+		},
+	},
 	{
 		// selector.go GetTagCondition drops a matcher whose value is empty
 		class: "matcher-empty-value-ignored",
@@ -500,4 +597,62 @@ func literalAlternation(r *rx) bool {
 		return false
 	}
 	return r.kind == "alt" && walk(r) && len(lits) >= 2
+}
+
+// hasTopkTie: does a topk / bottomk of the expression have to choose between equal values at
+// some step? (the choice depends on the engine's heap order: such a case has no defined answer)
+func hasTopkTie(ps *plannedSet, q *query) bool {
+	tie := false
+	q.e.walk(func(x expr) {
+		k, ok := x.(*kaggExpr)
+		if !ok || tie || k.op == "quantile" || k.param < 1 {
+			return
+		}
+		q2 := *q
+		q2.e = k.e
+		q2.text = k.e.text()
+		r := ps.up.query(&q2)
+		if r.err != "" {
+			return
+		}
+		type gk struct {
+			key string
+			t   int64
+		}
+		groups := map[gk][]float64{}
+		for _, sr := range r.series {
+			var key []label
+			for _, l := range sr.labels {
+				in := false
+				for _, n := range k.labels {
+					if n == l.name {
+						in = true
+					}
+				}
+				if (k.without && !in && l.name != "__name__") || (!k.without && in) {
+					key = append(key, l)
+				}
+			}
+			ks := labelsKey(key)
+			for _, p := range sr.points {
+				groups[gk{ks, p.t}] = append(groups[gk{ks, p.t}], p.v)
+			}
+		}
+		kk := int(k.param)
+		for _, vs := range groups {
+			if len(vs) <= kk {
+				continue
+			}
+			sort.Float64s(vs)
+			if k.op == "topk" {
+				// descending: positions kk-1 and kk from the top
+				if vs[len(vs)-kk] == vs[len(vs)-kk-1] {
+					tie = true
+				}
+			} else if vs[kk-1] == vs[kk] {
+				tie = true
+			}
+		}
+	})
+	return tie
 }
